@@ -80,6 +80,26 @@ func (e *Engine) runBlock(st *State, fr *Frame, b *ssa.BasicBlock, pred *ssa.Bas
 		e.endPath(st)
 		return
 	}
+	// loops with an invariant in the contract file: cut-point rule
+	if e.contracts != nil && pred != nil && b.Dominates(pred) || (e.contracts != nil && isLoopHeader(b)) {
+		// phis are assigned first (entry values), then havocked by the rule
+		e.assignPhis(st, fr, b, pred)
+		if handled, ended := e.genericLoopHeader(st, fr, b); handled {
+			if ended {
+				return
+			}
+			k := 0
+			for k < len(b.Instrs) {
+				if _, ok := b.Instrs[k].(*ssa.Phi); !ok {
+					break
+				}
+				k++
+			}
+			st.visits[key]--
+			e.runFrom(st, fr, b, k)
+			return
+		}
+	}
 	// phis first (parallel assignment)
 	i := 0
 	if pred != nil {
@@ -105,6 +125,41 @@ func (e *Engine) runBlock(st *State, fr *Frame, b *ssa.BasicBlock, pred *ssa.Bas
 		}
 	}
 	e.runFrom(st, fr, b, i)
+}
+
+func isLoopHeader(b *ssa.BasicBlock) bool {
+	for _, p := range b.Preds {
+		if b.Dominates(p) {
+			return true
+		}
+	}
+	return false
+}
+
+func (e *Engine) assignPhis(st *State, fr *Frame, b *ssa.BasicBlock, pred *ssa.BasicBlock) {
+	if pred == nil {
+		return
+	}
+	var vals []Value
+	var phis []*ssa.Phi
+	for _, in := range b.Instrs {
+		phi, ok := in.(*ssa.Phi)
+		if !ok {
+			break
+		}
+		idx := -1
+		for j, p := range b.Preds {
+			if p == pred {
+				idx = j
+				break
+			}
+		}
+		phis = append(phis, phi)
+		vals = append(vals, e.operand(st, fr, phi.Edges[idx]))
+	}
+	for j, phi := range phis {
+		fr.regs[phi] = vals[j]
+	}
 }
 
 func (e *Engine) runFrom(st *State, fr *Frame, b *ssa.BasicBlock, i int) {
@@ -670,6 +725,14 @@ func (e *Engine) binop(st *State, op token.Token, x, y Value, xt, rt types.Type,
 				}
 				r = App(SInt, "bitandnot", a, b)
 			case token.OR:
+				if m, ok := b.intConst(); ok && m.Sign() > 0 && new(big.Int).And(m, new(big.Int).Sub(m, big.NewInt(1))).Sign() == 0 {
+					if _, isc := a.intConst(); !isc {
+						// x | 2^k : add the bit if it is not set
+						set := Eq(App(SInt, "mod", App(SInt, "div", a, BigLit(m)), IntLit(2)), IntLit(1))
+						r = Ite(set, a, Add(a, BigLit(m)))
+						break
+					}
+				}
 				if xa, ok := a.intConst(); ok {
 					if yb, ok := b.intConst(); ok {
 						r = BigLit(new(big.Int).Or(xa, yb))
